@@ -80,3 +80,14 @@ Proof.
     [exact Hc | apply forallb_wf_enc_ok; exact Hes].
 Qed.
 Print Assumptions C10_clean_then_writes.
+
+(* cycles of fault / recovery / writes: [dmg] is ANY function on the bytes of the newest file
+   (the fault), [cs] any number of earlier cycles; the writes acknowledged after a recovery are
+   delivered by the next one, behind exactly what that recovery delivered *)
+Theorem C10_cycles : forall cs files dmg es',
+  files <> [] -> forallb wf_entry es' = true ->
+  let files' := fold_left cycle cs files in
+  replay_dir (cycle files' (dmg, es')) =
+    replay_dir (damage_newest dmg files') ++ map canon es'.
+Proof. exact WalReuseGen.C10_cycles_ok. Qed.
+Print Assumptions C10_cycles.
